@@ -85,6 +85,51 @@ func fail(st *state, kind, op, detail, site string) {
 	}
 }
 
+// indepProbe: two trees of one type; on A a cursor rests on the first leaf and a Delete of a key
+// of that leaf is started (it waits for the leaf while holding whatever tree-level state Delete
+// holds); every kind of operation on B must still complete. Real goroutines, real sync.Mutex.
+// A slow machine can only make the probe miss (the Delete has not reached its wait yet), never
+// fire: B's operations need nothing of A on correct code.
+func indepProbe(ty string) string {
+	a, errA := adapter.New(ty, 4)
+	b, errB := adapter.New(ty, 4)
+	if errA != nil || errB != nil {
+		return "constructor failed at order 4"
+	}
+	for j := int64(0); j < 12; j++ {
+		a.Insert(adapter.BulkKey(ty, j), int(j))
+		b.Insert(adapter.BulkKey(ty, j), int(j))
+	}
+	cur := a.NewScanner(adapter.BulkKey(ty, 0))
+	cur.Scan()
+	doneA := make(chan struct{})
+	go func() { a.Delete(adapter.BulkKey(ty, 1)); close(doneA) }()
+	time.Sleep(150 * time.Millisecond)
+	doneB := make(chan struct{})
+	go func() {
+		b.Insert(adapter.BulkKey(ty, 20), 1)
+		b.Search(adapter.BulkKey(ty, 3))
+		b.Update(adapter.BulkKey(ty, 4), func(v interface{}, ok bool) interface{} { return v })
+		b.Delete(adapter.BulkKey(ty, 5))
+		c := b.NewScanner(adapter.BulkKey(ty, 0))
+		c.Scan()
+		c.Close()
+		close(doneB)
+	}()
+	msg := ""
+	select {
+	case <-doneB:
+	case <-time.After(3 * time.Second):
+		msg = "operations on a second tree do not complete while a Delete on the first waits for a cursor's leaf: trees of type " + ty + " returned by separate constructor calls share state"
+	}
+	cur.Close()
+	select {
+	case <-doneA:
+	case <-time.After(3 * time.Second):
+	}
+	return msg
+}
+
 func fmtVal(v interface{}) string { return adapter.FmtVal(v) }
 
 func parseVal(s string) (interface{}, bool) { return adapter.ParseVal(s) }
@@ -255,6 +300,15 @@ func main() {
 			cur = args[0]
 			st = slots[cur]
 			emit("slot ok")
+			continue
+		}
+		if op == "indep" && len(args) == 1 {
+			// C12 "trees returned by separate calls share no state", the concurrent half that a
+			// sequential history cannot see (R7-C12-d: a tree-level mutex moved to package level)
+			if msg := indepProbe(args[0]); msg != "" {
+				fail(nil, "independence", line, msg, "")
+			}
+			emit("indep ok")
 			continue
 		}
 		if op == "chk" && len(args) == 1 {
